@@ -123,6 +123,7 @@ func (corSelf *CorDef[T]) YieldRef(out T) T {
 	var more bool
 	// fmt.Println(corSelf, "Wait for", "op")
 	op, more = <-corSelf.opCh
+	verifPoint("cor.yieldRef.gotOp", corSelf)
 	// fmt.Println(corSelf, "Wait for", "op", "done")
 
 	if more && op != nil && op.cor != nil {
@@ -142,8 +143,10 @@ func (corSelf *CorDef[T]) YieldFrom(target *CorDef[T], in T) T {
 	if corSelf.IsDone() {
 		return result
 	}
+	verifPoint("cor.yieldFrom.afterDoneCheck", corSelf)
 
 	target.receive(corSelf, in)
+	verifPoint("cor.yieldFrom.sent", corSelf)
 
 	// fmt.Println(corSelf, "Wait for", "result")
 	result, _ = <-corSelf.resultCh
@@ -190,7 +193,9 @@ func (corSelf *CorDef[T]) IsStarted() bool {
 }
 
 func (corSelf *CorDef[T]) close() {
+	verifPoint("cor.close.entry", corSelf)
 	corSelf.isClosed.Set(true)
+	verifPoint("cor.close.flagSet", corSelf)
 
 	corSelf.closedM.Lock()
 	if corSelf.resultCh != nil {
@@ -199,6 +204,7 @@ func (corSelf *CorDef[T]) close() {
 	if corSelf.opCh != nil {
 		close(corSelf.opCh)
 	}
+	verifPoint("cor.close.closed", corSelf)
 	corSelf.closedM.Unlock()
 }
 
@@ -206,7 +212,9 @@ func (corSelf *CorDef[T]) doCloseSafe(fn func()) {
 	if corSelf.IsDone() {
 		return
 	}
+	verifPoint("cor.doCloseSafe.afterDoneCheck", corSelf)
 	corSelf.closedM.Lock()
+	verifPoint("cor.doCloseSafe.locked", corSelf)
 	fn()
 	corSelf.closedM.Unlock()
 }
